@@ -181,6 +181,15 @@ def main():
     for k, ops in cases[:n_or]:
         fails.extend(oracle_case(k, ops))
 
+    # the specification scan on all eight modules (incl. the inverted Bayesian test), float data
+    rng_any = C.make_rng(seed, "C01-any")
+    n_any = 0
+    for _ in range(150 if tier == "quick" else 1500):
+        k, ops = B.gen_any_history(rng_any)
+        ops = [o for o in ops if o["op"] != "predict"]
+        fails.extend(oracle_case(k, ops))
+        n_any += 1
+
     def extended():
         out = []
         rng2 = C.make_rng(seed, "C01-ext")
@@ -197,7 +206,7 @@ def main():
         "rule": "random grid data (k/8, small row pools -> duplicates and exact ties), kernels Fuzzy/ART1/ART2A, rho k/8, 5 modes x eps in {0,2^-10,1/16,1/4}, "
                 "70% with a table reset function; fit or 2-3 partial_fit batches; non-trivial = distinct case reaching >= 2 categories",
         "traces_validated_against_impl": sum(1 for c in codes if c == 0),
-        "oracle_cases": n_or,
+        "oracle_cases": n_or, "all_module_oracle_cases": n_any,
         "distribution": stats,
         "samples": [summaries[0], summaries[1]],
     })
